@@ -35,6 +35,13 @@ def check(ctx):
                    f"spent = sum(children spent), over all children, after the children were scheduled", floor=4)
         ctx.guarded(o, lambda o, ps=ps: rollup(ctx, o, ps))
 
+    from . import sched_fill
+    for S in BOTH:
+        o = ctx.ob(f"{S['name']}_leaf_fractions_consistent", 'R11',
+                   f"{S['name']}: the day fractions of a leaf's start and end are both computed with the balancing selector (a start "
+                   f"fraction over all bookings and an end fraction over the task's own bookings puts the end before the start)", floor=3)
+        ctx.guarded(o, lambda o, S=S: sched_fill.selectors(ctx, o, S))
+
     o = ctx.ob('wbs_start_end', 'R8', "WBS.start = min(root starts), WBS.end = max(root ends), over all roots, None filter only", floor=2)
     ctx.guarded(o, lambda o: wbs_bounds(ctx, o))
 
